@@ -189,6 +189,28 @@ func c13MakeChains(t *testing.T, p *c13PKI) map[string]*c13Chain {
 			v.WriteString(c13b(err == nil))
 		}
 		c.vBits = v.String()
+		// the two laws C13_authenticates_iff_spec assumes of x509, observed on this chain: an empty
+		// (non-nil) root pool verifies nothing; pools are sets (order and repetition of AddCert
+		// calls do not matter)
+		if c.vBits[0] != '0' {
+			t.Fatalf("c13 self-check: chain %s verifies against an empty root pool", c.kind)
+		}
+		for mask := 1; mask < 1<<n; mask++ {
+			roots, inters := x509.NewCertPool(), x509.NewCertPool()
+			for rep := 0; rep < 2; rep++ {
+				for j := n - 1; j >= 0; j-- {
+					if mask&(1<<j) != 0 {
+						roots.AddCert(c.certs[j])
+					} else {
+						inters.AddCert(c.certs[j])
+					}
+				}
+			}
+			_, err := c.certs[0].Verify(x509.VerifyOptions{DNSName: c13MX, Roots: roots, Intermediates: inters})
+			if c13b(err == nil) != string(c.vBits[mask]) {
+				t.Fatalf("c13 self-check: chain %s mask %d: x509 result depends on order/repetition of AddCert", c.kind, mask)
+			}
+		}
 		// self-check of the ground truth: per-anchor validation with the whole presented chain as
 		// intermediates must agree with how the chain was constructed
 		for j := range c.certs {
@@ -1226,7 +1248,10 @@ func (w *c13World) discCase(t *testing.T, out *vh.Out, z c13Zone) {
 			out.Violation("C13/insecure-rrset-used", op, detail)
 		}
 	}
-	out.Stat("disc/zone:a" + z.a + "_c" + z.c + "_r" + z.r + "_m" + z.m)
+	out.Stat("disc/zone-addr:" + z.a)
+	out.Stat("disc/zone-alias:" + z.c)
+	out.Stat("disc/zone-tlsa-canon:" + z.r)
+	out.Stat("disc/zone-tlsa-mx:" + z.m)
 	switch {
 	case err != nil:
 		out.Stat("disc/outcome:" + obs)
@@ -1391,5 +1416,20 @@ func TestVerifC13Conn(t *testing.T) {
 			}
 			w.connCase(t, out, z, ck, hs)
 		}
+	}
+	// the zones in which records are actually found, more often: secure host, signed RRset
+	var good []c13Zone
+	for _, z := range all {
+		zt := c13ZoneTruthOf(z)
+		if zt.hostSecure && !zt.lookupFails && (zt.secureR || z.m == "s") {
+			good = append(good, z)
+		}
+	}
+	n := vh.N(4000) / 20
+	for i := 0; i < n; i++ {
+		z := good[rng.Intn(len(good))]
+		w.fillZoneRecs(rng, &z)
+		ck := c13ChainKinds[rng.Intn(len(c13ChainKinds)-1)]
+		w.connCase(t, out, z, ck, rng.Chance(90))
 	}
 }
